@@ -229,7 +229,7 @@ def shard(jobs, tier):
             # an exhaustive enumeration: shard k of K takes every K-th element
             out += [dict(j, profile=f"{j['profile']}:{k}/14", lines=j.get('lines') if k == 0 else []) for k in range(14)]
             continue
-        parts = 1 if tier == 'quick' or n < 400 else min(12, n // 200)
+        parts = 1 if n < 600 else min(12, n // 300)
         if parts <= 1:
             out.append(j)
             continue
@@ -484,7 +484,9 @@ def main():
                 continue
             reported.add(key)
             path = write_replay(prop, 'failing-input', c, r, broken, seed)
-            print(f'VIOLATION property={prop} replay={path}')
+            if ('p', path) not in reported:
+                reported.add(('p', path))
+                print(f'VIOLATION property={prop} replay={path}')
             rc = 1
         return rc
     path = write_replay(prop, 'broken-tie', disagreements[0] if disagreements else None, None, broken, seed)
